@@ -815,9 +815,7 @@ impl BuiltInFunction {
 
                 let result: Primitive = match this {
                     Primitive::Int(i32) => Primitive::Float(f64::from(*i32).powf(*power)),
-                    Primitive::BigInt(i128) => {
-                        Primitive::Float(f64::from(*i128 as i32).powf(*power))
-                    }
+                    Primitive::BigInt(i128) => Primitive::Float((*i128 as f64).powf(*power)),
                     Primitive::Byte(u8) => Primitive::Float((*u8 as f64).powf(*power)),
                     Primitive::Float(f64) => Primitive::Float(f64.powf(*power)),
                     bad => unreachable!("{bad}"),
@@ -832,7 +830,7 @@ impl BuiltInFunction {
 
                 let result: Primitive = match this {
                     Primitive::Int(i32) => Primitive::Float(f64::from(*i32).sqrt()),
-                    Primitive::BigInt(i128) => Primitive::Float(f64::from(*i128 as i32).sqrt()),
+                    Primitive::BigInt(i128) => Primitive::Float((*i128 as f64).sqrt()),
                     Primitive::Byte(u8) => Primitive::Float((*u8 as f64).sqrt()),
                     Primitive::Float(f64) => Primitive::Float(f64.sqrt()),
                     bad => unreachable!("{bad}"),
